@@ -111,6 +111,29 @@ def random_tree(rng, n):
     return label_preorder(random_shape(rng, n))
 
 
+def chain(n, start=0):
+    """a degenerate tree: a single path of n nodes, labelled start.. from the root down (built iteratively)"""
+    t = (start + n - 1, [])
+    for lbl in range(start + n - 2, start - 1, -1):
+        t = (lbl, [t])
+    return t
+
+
+def comb(n, start=0):
+    """a spine of n nodes, each spine node with one extra leaf child (labels in pre-order)"""
+    # pre-order: spine_i, then its spine child subtree, then its leaf
+    def lab(i):
+        return start + i
+    t = None
+    total = 2 * n
+    # spine node i has label i (pre-order along the spine), leaves get labels n.. from the bottom up so that
+    # pre-order labelling is not needed by the callers (labels only have to be distinct)
+    for i in range(n - 1, -1, -1):
+        leaf = (lab(total - 1 - i), [])
+        t = (lab(i), [t, leaf] if t is not None else [leaf])
+    return t
+
+
 ADV_KINDS = ["always_equal", "never_equal", "falsy", "zero_len", "unhashable", "container", "ordering"]
 
 
